@@ -28,7 +28,7 @@ func dispatch(kind string, args []*Sexp) (out *Sexp) {
 		return runC15(kind, args)
 	}
 	switch kind {
-	case "skelvm", "skelsem", "skelsrc":
+	case "skelvm", "skelvmb", "skelsem", "skelsrc":
 		return runC03(kind, args)
 	}
 	switch kind {
@@ -78,6 +78,8 @@ func dispatch(kind string, args []*Sexp) (out *Sexp) {
 	switch kind {
 	case "modgraph":
 		return runModGraph(args)
+	case "builtinnames":
+		return runBuiltinNames(args)
 	case "fileimp":
 		return runFileImp(args)
 	case "finame":
